@@ -127,13 +127,13 @@ Proof.
     destruct (memb N.eqb c r), (existsb (fun q => negb (ahas cur q)) r), (has_dup N.eqb r); reflexivity.
 Qed.
 
-Lemma additions_is_err res self : forall l cur,
-  is_err (aspa_additions res self cur l) = existsb (def_malformed res) l.
+Lemma additions_is_err res : forall l cur,
+  is_err (aspa_additions res cur l) = existsb (def_malformed res) l.
 Proof.
   induction l as [|d r IH]; intros cur; simpl; auto.
   rewrite <- check_def_malformed. destruct (check_def res d); simpl; auto.
   specialize (IH (ainsert cur (ad_cust d) (ad_provs d))).
-  destruct (aspa_additions res self (ainsert cur (ad_cust d) (ad_provs d)) r) as [[m' evs]|e]; simpl in *; auto.
+  destruct (aspa_additions res (ainsert cur (ad_cust d) (ad_provs d)) r) as [[m' evs]|e]; simpl in *; auto.
 Qed.
 
 Theorem aspa_refuse_spec_correct res m u : is_err (aspa_process_updates res m u) = aspa_refuse_spec res m u.
@@ -142,8 +142,8 @@ Proof.
   pose proof (removals_is_err (au_remove u) m) as R.
   destruct (aspa_removals m (au_remove u)) as [[m1 ev1]|e]; simpl in *.
   - rewrite <- R. simpl.
-    pose proof (additions_is_err res m (au_add u) m1) as A.
-    destruct (aspa_additions res m m1 (au_add u)) as [[m2 ev2]|e]; simpl in *; auto.
+    pose proof (additions_is_err res (au_add u) m1) as A.
+    destruct (aspa_additions res m1 (au_add u)) as [[m2 ev2]|e]; simpl in *; auto.
   - rewrite <- R. reflexivity.
 Qed.
 
@@ -197,14 +197,14 @@ Proof.
     - destruct (aspa_removals (aremove cur c) r) as [[m' evs]|e1] eqn:E; [discriminate|].
       intros H; inversion H; subst. destruct (IH _ _ E) as (c' & -> & Hc). exists c'; auto.
     - intros H; inversion H; subst. exists c; auto. }
-  assert (A : forall l cur e, aspa_additions res m cur l = Err e -> exists d, In d l /\ check_def res d = Some e).
+  assert (A : forall l cur e, aspa_additions res cur l = Err e -> exists d, In d l /\ check_def res d = Some e).
   { induction l as [|d r IH]; intros cur e0; simpl; [discriminate|].
     destruct (check_def res d) as [e1|] eqn:C.
     - intros H; inversion H; subst. exists d; auto.
-    - destruct (aspa_additions res m (ainsert cur (ad_cust d) (ad_provs d)) r) as [[m' evs]|e1] eqn:E; [discriminate|].
+    - destruct (aspa_additions res (ainsert cur (ad_cust d) (ad_provs d)) r) as [[m' evs]|e1] eqn:E; [discriminate|].
       intros H; inversion H; subst. destruct (IH _ _ E) as (d' & Hd & Hc). exists d'; auto. }
   destruct (aspa_removals m (au_remove u)) as [[m1 ev1]|e1] eqn:E1.
-  - destruct (aspa_additions res m m1 (au_add u)) as [[m2 ev2]|e2] eqn:E2; [discriminate|].
+  - destruct (aspa_additions res m1 (au_add u)) as [[m2 ev2]|e2] eqn:E2; [discriminate|].
     intros H; inversion H; subst. destruct (A _ _ _ E2) as (d & Hd & Hc).
     unfold check_def, customer_used_as_provider, contains_duplicate_providers in Hc.
     destruct (ad_provs d) as [|p ps] eqn:P.
@@ -243,14 +243,14 @@ Qed.
 
 Definition last_def (l : list aspa_def) (c : N) : option aspa_def := find_last (fun d => ad_cust d =? c) l.
 
-Lemma additions_ok_get res self : forall l cur m2 ev2,
-  aspa_additions res self cur l = Ok (m2, ev2) ->
+Lemma additions_ok_get res : forall l cur m2 ev2,
+  aspa_additions res cur l = Ok (m2, ev2) ->
   forall c, aget m2 c = match last_def l c with Some d => Some (ad_provs d) | None => aget cur c end.
 Proof.
   induction l as [|d r IH]; intros cur m2 ev2; simpl.
   - intros H; inversion H; auto.
   - destruct (check_def res d); [discriminate|].
-    destruct (aspa_additions res self (ainsert cur (ad_cust d) (ad_provs d)) r) as [[m' evs]|e] eqn:E; [|discriminate].
+    destruct (aspa_additions res (ainsert cur (ad_cust d) (ad_provs d)) r) as [[m' evs]|e] eqn:E; [|discriminate].
     intros H; inversion H; subst. intros c. rewrite (IH _ _ _ E).
     unfold last_def; cbn [find_last]. destruct (find_last _ r); auto.
     rewrite aget_ainsert. destruct (ad_cust d =? c); reflexivity.
@@ -262,9 +262,9 @@ Theorem aspa_ok_spec res m u all evs :
 Proof.
   unfold aspa_process_updates.
   destruct (aspa_removals m (au_remove u)) as [[m1 ev1]|e1] eqn:E1; [|discriminate].
-  destruct (aspa_additions res m m1 (au_add u)) as [[m2 ev2]|e2] eqn:E2; [|discriminate].
+  destruct (aspa_additions res m1 (au_add u)) as [[m2 ev2]|e2] eqn:E2; [|discriminate].
   intros H; inversion H; subst. intros c.
-  rewrite (additions_ok_get _ _ _ _ _ _ E2). destruct (removals_ok _ _ _ _ E1) as [A _].
+  rewrite (additions_ok_get _ _ _ _ _ E2). destruct (removals_ok _ _ _ _ E1) as [A _].
   unfold aspa_expected_get, last_def. destruct (find_last _ (au_add u)); auto.
 Qed.
 
@@ -278,26 +278,38 @@ Proof.
   intros H1 H2 p. rewrite H1. apply H2.
 Qed.
 
-Lemma def_events_effect self s d :
-  ad_provs d <> [] -> aget s (ad_cust d) = aget self (ad_cust d) ->
-  same_provs (aget (apply_aevents s (def_events self d)) (ad_cust d)) (Some (ad_provs d))
-  /\ forall c, c <> ad_cust d -> aget (apply_aevents s (def_events self d)) c = aget s c.
+Lemma same_provs_sym a b : same_provs a b -> same_provs b a.
+Proof. destruct a, b; simpl; auto. intros H p. symmetry. apply H. Qed.
+
+Lemma In_apply_diff_gen ex_s existing new p :
+  (forall q, In q ex_s <-> In q existing) ->
+  (In p (apply_prov_update ex_s (diff_update existing new)) <-> In p new).
+Proof.
+  intros H. rewrite In_apply_prov_update, H, <- In_apply_prov_update. apply In_apply_diff.
+Qed.
+
+Lemma def_events_effect cur s d :
+  ad_provs d <> [] -> same_provs (aget s (ad_cust d)) (aget cur (ad_cust d)) ->
+  same_provs (aget (apply_aevents s (def_events cur d)) (ad_cust d)) (Some (ad_provs d))
+  /\ forall c, c <> ad_cust d -> aget (apply_aevents s (def_events cur d)) c = aget s c.
 Proof.
   intros Hne Hs. unfold def_events.
-  destruct (aget self (ad_cust d)) as [existing|] eqn:G.
-  - destruct (pu_is_empty (diff_update existing (ad_provs d))) eqn:PE.
-    + change (apply_aevents s []) with s. rewrite Hs. split; auto.
-      simpl. apply diff_empty_same; auto.
+  destruct (aget cur (ad_cust d)) as [existing|] eqn:G.
+  - destruct (aget s (ad_cust d)) as [ex_s|] eqn:GS; [|contradiction]. simpl in Hs.
+    destruct (pu_is_empty (diff_update existing (ad_provs d))) eqn:PE.
+    + change (apply_aevents s []) with s. rewrite GS. split; auto.
+      simpl. intros p. rewrite Hs. apply diff_empty_same; auto.
     + rewrite apply_aevents_cons. change (apply_aevents ?x []) with x. simpl apply_aevent.
-      unfold aspas_apply_update. rewrite Hs.
-      pose proof (In_apply_diff existing (ad_provs d)) as HI.
-      destruct (apply_prov_update existing (diff_update existing (ad_provs d))) as [|q qs] eqn:AP.
+      unfold aspas_apply_update. rewrite GS.
+      pose proof (fun p => In_apply_diff_gen ex_s existing (ad_provs d) p Hs) as HI.
+      destruct (apply_prov_update ex_s (diff_update existing (ad_provs d))) as [|q qs] eqn:AP.
       * exfalso. destruct (ad_provs d) as [|p ps]; [congruence|]. apply (HI p). left; reflexivity.
       * split.
         -- rewrite aget_ainsert, N.eqb_refl. simpl. exact HI.
         -- intros c Hc. rewrite aget_ainsert. destruct (ad_cust d =? c) eqn:E; auto.
            apply N.eqb_eq in E; congruence.
-  - rewrite apply_aevents_cons. change (apply_aevents ?x []) with x. simpl apply_aevent. split.
+  - destruct (aget s (ad_cust d)) as [ex_s|] eqn:GS; [contradiction|].
+    rewrite apply_aevents_cons. change (apply_aevents ?x []) with x. simpl apply_aevent. split.
     + rewrite aget_ainsert, N.eqb_refl. simpl. reflexivity.
     + intros c Hc. rewrite aget_ainsert. destruct (ad_cust d =? c) eqn:E; auto.
       apply N.eqb_eq in E; congruence.
@@ -306,91 +318,50 @@ Qed.
 Lemma check_def_nonempty res d : check_def res d = None -> ad_provs d <> [].
 Proof. unfold check_def. destruct (ad_provs d); [discriminate|congruence]. Qed.
 
-Lemma additions_replay res self : forall l cur s m2 ev2,
-  aspa_additions res self cur l = Ok (m2, ev2) ->
-  NoDup (map ad_cust l) ->
-  (forall d, In d l -> aget s (ad_cust d) = aget self (ad_cust d)) ->
-  forall c, same_provs (aget (apply_aevents s ev2) c)
-                       (match last_def l c with Some d => Some (ad_provs d) | None => aget s c end).
+(** Replaying the events keeps the stored configuration equal (as provider sets)
+    to the working copy the objects are issued from. *)
+Lemma additions_replay res : forall l cur s m2 ev2,
+  aspa_additions res cur l = Ok (m2, ev2) ->
+  (forall c, same_provs (aget s c) (aget cur c)) ->
+  forall c, same_provs (aget (apply_aevents s ev2) c) (aget m2 c).
 Proof.
   induction l as [|d r IH]; intros cur s m2 ev2; simpl.
-  - intros H _ _ c; inversion H; subst. apply same_provs_refl.
+  - intros H HS c; inversion H; subst. apply HS.
   - destruct (check_def res d) eqn:C; [discriminate|].
-    destruct (aspa_additions res self (ainsert cur (ad_cust d) (ad_provs d)) r) as [[m' evs]|e] eqn:E; [|discriminate].
-    intros H ND HS c; inversion H; subst. inversion ND as [|x xs Hnotin ND']; subst.
+    destruct (aspa_additions res (ainsert cur (ad_cust d) (ad_provs d)) r) as [[m' evs]|e] eqn:E; [|discriminate].
+    intros H HS c; inversion H; subst.
     rewrite apply_aevents_app.
-    destruct (def_events_effect self s d (check_def_nonempty _ _ C) (HS d (or_introl eq_refl))) as [EA EB].
-    set (s' := apply_aevents s (def_events self d)) in *.
-    assert (HS' : forall d', In d' r -> aget s' (ad_cust d') = aget self (ad_cust d')).
-    { intros d' Hd'. rewrite EB; [apply HS; auto|]. intros Heq. apply Hnotin. rewrite <- Heq. apply in_map; auto. }
-    pose proof (IH _ s' _ _ E ND' HS' c) as K.
-    unfold last_def in *; cbn [find_last]. destruct (find_last _ r); auto.
-    destruct (ad_cust d =? c) eqn:Ec.
-    + apply N.eqb_eq in Ec; subst c. eapply same_provs_trans; eauto.
-    + rewrite EB in K; auto. intros Heq; subst. rewrite N.eqb_refl in Ec; discriminate.
+    destruct (def_events_effect cur s d (check_def_nonempty _ _ C) (HS (ad_cust d))) as [EA EB].
+    apply (IH _ _ _ _ E). intros c'. rewrite aget_ainsert.
+    destruct (ad_cust d =? c') eqn:Ec.
+    + apply N.eqb_eq in Ec; subst c'. exact EA.
+    + rewrite EB; [apply HS|]. intros Heq; subst. rewrite N.eqb_refl in Ec; discriminate.
 Qed.
 
-(** The statement one would like: what is stored after an accepted update is what was asked for. *)
-Definition aspa_accepted_config_full : Prop :=
-  forall res m u m' evs, ca_aspas_update res m u = (m', evs, None) ->
-  forall c, same_provs (aget m' c) (aspa_expected_get m u c).
-
-(** F01a: AS65002 => [1,2] configured; one update removes AS65002 and defines
-    AS65002 => [1]. Accepted; the stored definition of AS65002 has no providers. *)
-Definition f01a_res : resources := mkRes [(65000, 65010)] [] [].
-Definition f01a_state : aspas := [(65002, [1; 2])].
-Definition f01a_update : aspa_updates := mkAU [mkAD 65002 [1]] [65002].
-
-Example f01a_accepted_with_empty_providers :
-  ca_aspas_update f01a_res f01a_state f01a_update =
-  ([(65002, [])], [AEvRemoved 65002; AEvUpdated 65002 (mkPU [] [2])], None).
-Proof. vm_compute. reflexivity. Qed.
-
-Theorem aspa_accepted_config_refuted : ~ aspa_accepted_config_full.
-Proof.
-  intros H. specialize (H _ _ _ _ _ f01a_accepted_with_empty_providers 65002).
-  vm_compute in H. destruct (H 1) as [_ K]. apply K. left; reflexivity.
-Qed.
-
-(** Strongest restriction proved: requests that do not remove and define the
-    same customer, nor define a customer twice. *)
-Theorem aspa_accepted_config_except_known res m u m' evs :
-  aspa_simple_request u ->
+(** What is stored after an accepted update is what was asked for (as provider sets:
+    apply_update keeps stored lists sorted, the request need not be). *)
+Theorem aspa_accepted_config res m u m' evs :
   ca_aspas_update res m u = (m', evs, None) ->
   forall c, same_provs (aget m' c) (aspa_expected_get m u c).
 Proof.
-  intros [Hdisj Hnd]. unfold ca_aspas_update, aspa_process_updates.
+  unfold ca_aspas_update. destruct (aspa_process_updates res m u) as [[all ev]|e] eqn:P; [|discriminate].
+  intros H; inversion H; subst. intros c. rewrite <- (aspa_ok_spec _ _ _ _ _ P c).
+  unfold aspa_process_updates in P.
   destruct (aspa_removals m (au_remove u)) as [[m1 ev1]|e1] eqn:E1; [|discriminate].
-  destruct (aspa_additions res m m1 (au_add u)) as [[m2 ev2]|e2] eqn:E2; [|discriminate].
-  intros H; inversion H; subst. intros c.
-  destruct (removals_ok _ _ _ _ E1) as [A B].
+  destruct (aspa_additions res m1 (au_add u)) as [[m2 ev2]|e2] eqn:E2; [|discriminate].
+  inversion P; subst. destruct (removals_ok _ _ _ _ E1) as [_ B].
   rewrite apply_aevents_app, B.
-  assert (HS : forall d, In d (au_add u) -> aget m1 (ad_cust d) = aget m (ad_cust d)).
-  { intros d Hd. rewrite A. destruct (memb N.eqb (ad_cust d) (au_remove u)) eqn:M; auto.
-    apply membN_In in M. exfalso. apply (Hdisj _ M). apply in_map; auto. }
-  pose proof (additions_replay res m _ _ m1 _ _ E2 Hnd HS c) as K.
-  unfold aspa_expected_get. unfold last_def in K. destruct (find_last _ (au_add u)); auto.
-  rewrite A in K. exact K.
+  apply (additions_replay _ _ _ _ _ _ E2). intros c'. apply same_provs_refl.
 Qed.
 
-Lemma aspa_simple_request_b_iff u : aspa_simple_request_b u = true <-> aspa_simple_request u.
-Proof.
-  unfold aspa_simple_request_b, aspa_simple_request.
-  rewrite andb_true_iff, forallb_forall, negb_true_iff, (has_dup_NoDup N.eqb Neqb_spec). split.
-  - intros [A B]. split; auto. intros c Hc. apply membN_false. apply negb_true_iff. auto.
-  - intros [A B]. split; auto. intros c Hc. apply negb_true_iff. apply membN_false. auto.
-Qed.
-
-(** Consequence for C05: outside F01a, everything an accepted update (re)defines is
-    stored well-formed and backed by a held customer AS. *)
+(** Everything an accepted update (re)defines is stored well-formed and backed by a held customer AS. *)
 Theorem aspa_accepted_wellformed res m u m' evs :
-  aspa_simple_request u ->
   ca_aspas_update res m u = (m', evs, None) ->
   forall c ps, In c (map ad_cust (au_add u)) -> aget m' c = Some ps ->
   ps <> [] /\ ~ In c ps /\ contains_asn res c = true.
 Proof.
-  intros HS H c ps Hc Hg.
-  pose proof (aspa_accepted_config_except_known res m u m' evs HS H c) as K.
+  intros H c ps Hc Hg.
+  pose proof (aspa_accepted_config res m u m' evs H c) as K.
   rewrite Hg in K. unfold aspa_expected_get in K.
   destruct (find_last (fun d => ad_cust d =? c) (au_add u)) as [d|] eqn:F.
   - apply find_last_some in F as [Hd Hcd]. apply N.eqb_eq in Hcd. subst c.
@@ -409,6 +380,21 @@ Proof.
   - exfalso. apply in_map_iff in Hc as (d & Hd & Hin).
     pose proof (proj1 (find_last_none _ _) F d Hin) as Z. simpl in Z. rewrite Hd, N.eqb_refl in Z. discriminate.
 Qed.
+
+(** ** The originally pinned tree (finding F01a, repaired in f9940a57):
+    AS65002 => [1,2] configured; one update removes AS65002 and defines AS65002 => [1].
+    It was accepted and the stored definition of AS65002 had no providers. *)
+Definition f01a_res : resources := mkRes [(65000, 65010)] [] [].
+Definition f01a_state : aspas := [(65002, [1; 2])].
+Definition f01a_update : aspa_updates := mkAU [mkAD 65002 [1]] [65002].
+
+Example aspa_accepted_config_pinned_refuted :
+  (match aspa_process_updates_pinned f01a_res f01a_state f01a_update with
+   | Ok (_, evs) => apply_aevents f01a_state evs
+   | Err _ => f01a_state
+   end) = [(65002, [])]
+  /\ ca_aspas_update f01a_res f01a_state f01a_update = ([(65002, [1])], [AEvRemoved 65002; AEvAdded (mkAD 65002 [1])], None).
+Proof. vm_compute. auto. Qed.
 
 (** * Update of one customer's providers *)
 Definition existing_of (m : aspas) (c : N) : list N := match aget m c with Some ps => ps | None => [] end.
@@ -482,9 +468,10 @@ Example aspa_update_iff_nonvacuous_accepted :
   ([(65002, [2; 3]); (65003, [4; 1])], [AEvAdded (mkAD 65003 [4; 1]); AEvUpdated 65002 (mkPU [3] [1])], None).
 Proof. vm_compute. reflexivity. Qed.
 
-Example aspa_accepted_config_except_known_nonvacuous :
-  aspa_simple_request (mkAU [mkAD 65003 [4; 1]; mkAD 65002 [2; 3]] []).
-Proof. apply aspa_simple_request_b_iff. vm_compute. reflexivity. Qed.
+Example aspa_accepted_config_nonvacuous :
+  ca_aspas_update f01a_res f01a_state (mkAU [mkAD 65002 [3; 1]; mkAD 65002 [2; 3]] []) =
+  ([(65002, [2; 3])], [AEvUpdated 65002 (mkPU [3] [2]); AEvUpdated 65002 (mkPU [2] [1])], None).
+Proof. vm_compute. reflexivity. Qed.
 
 Example aspa_update_atomic_nonvacuous :
   ca_aspas_update f01a_res f01a_state (mkAU [mkAD 65003 [4]] [65009]) = (f01a_state, [], Some (ECustomerUnknown 65009)).
